@@ -7,6 +7,7 @@ import Hive.Model.DerivedLocks
 import Hive.Spec.Derived
 import Hive.Model.DerivedVarSeq
 import Hive.Gen.C14_Facts
+import Hive.Model.DerivedGraph
 /-! # Line protocol of the C14 driver: one construct per case, selected by the first token. -/
 namespace Hive.Derived
 open Hive.Proto Hive.Conc
@@ -20,6 +21,7 @@ inductive DSt
   | ev (s : EV) (bot top : Int)
   | wg (s : WG)
   | dv (s : DV)
+  | gs (s : GW)
 
 def parseNatLists (toks : List String) : Option (List (List Nat)) := toks.mapM parseNats
 
@@ -124,6 +126,11 @@ def stepLine (st : DSt) (toks : List String) : DSt × String :=
     match st with
     | .ev s bot top => let r := s.stepLine bot top rest; (.ev r.1 bot top, r.2)
     | _ => (st, "bad-op")
+  | "gs" :: rest =>
+    let cur := match st with | .gs s => some s | _ => none
+    match GW.stepLine cur rest with
+    | (some s, a) => (.gs s, a)
+    | (none, a) => (st, a)
   | "dv" :: rest =>
     let cur := match st with | .dv s => some s | _ => none
     match DV.stepLine cur rest with
